@@ -108,7 +108,9 @@ type c17Cred struct {
 }
 
 func (w *c17World) creds() []c17Cred {
-	tagOf := func(g string) string { return strings.TrimPrefix(strings.TrimSuffix(strings.TrimSuffix(g, "-a"), "-b"), "c17-") }
+	tagOf := func(g string) string {
+		return strings.TrimPrefix(strings.TrimSuffix(strings.TrimSuffix(g, "-a"), "-b"), "c17-")
+	}
 	t1 := tagOf(w.g1) + "a"
 	t2 := tagOf(w.g2) + "b"
 	both := map[string]bool{w.g1: true, w.g2: true, w.sub: true}
@@ -121,6 +123,10 @@ func (w *c17World) creds() []c17Cred {
 		{name: "global-user-not-admin", hdr: basic("notadmin", "napw"), pw: "napw"},
 		{name: "ordinary-group-user", hdr: basic("bob", "bobpw-MARKSECRET"+t1), pw: "bobpw-MARKSECRET" + t1},
 		{name: "wildcard-user", hdr: basic("whoever", "whatever"), pw: "whatever"},
+		{name: "hashed-password-user", hdr: basic("alice", "alicepw-"+t1), pw: "alicepw-" + t1},
+		{name: "empty-username-user", hdr: basic("", "emptypw-MARKSECRET"+t1), pw: "emptypw-MARKSECRET" + t1},
+		{name: "empty-users-password-other-name", hdr: basic("zed", "emptypw-MARKSECRET"+t1), pw: "emptypw-MARKSECRET" + t1},
+		{name: "admins-password-other-name", hdr: basic("bob", "gadminpw-MARKSECRET"+t1), pw: "gadminpw-MARKSECRET" + t1},
 		{name: "other-groups-admin", hdr: basic("gadmin", "gadminpw-MARKSECRET"+t2), groups: map[string]bool{w.g2: true}, pw: "gadminpw-MARKSECRET" + t2},
 		{name: "group-admin", hdr: basic("gadmin", "gadminpw-MARKSECRET"+t1), groups: map[string]bool{w.g1: true}, pw: "gadminpw-MARKSECRET" + t1},
 		{name: "global-admin", hdr: basic("root", "rootpw-MARKSECRETroot"), global: true, groups: both, pw: "rootpw-MARKSECRETroot"},
@@ -171,7 +177,7 @@ func (w *c17World) routes(g string) []c17Route {
 
 var c17Rec = verifkit.New("TestVerif_C17_AuthMatrix",
 	"real server over raw TCP: every API route shape (stats, group list, description, users, user, password, empty/wildcard user, keys, tokens, token, unknown kinds, undefined routes) "+
-		"x method (GET HEAD PUT POST DELETE OPTIONS PATCH BOGUS) x 17 credentials (none, malformed, wrong password, global non-admin, ordinary group user, wildcard user, other group's admin, "+
+		"x method (GET HEAD PUT POST DELETE OPTIONS PATCH BOGUS) x 21 credentials (none, malformed, wrong password, global non-admin, ordinary group user, wildcard user, hashed-password user, the empty-username user, its password or the admin's under another name, other group's admin, "+
 		"group admin, global admin, admin token in scope / other group / without admin / expired / unknown / root) with plausible bodies, on groups whose every secret field carries a marker; "+
 		"oracle: independent authorisation model -- insufficient => 401 (404 for undefined routes), no marker in the body, groups+data trees unchanged; any response never contains a secret marker; "+
 		"non-trivial = insufficient credential that is valid somewhere else; distinct by route+method+credential")
@@ -239,9 +245,7 @@ func TestVerif_C17_AuthMatrix(t *testing.T) {
 				d := rig.readGroup(rt.group)
 				if us, ok := d["users"].(map[string]any); ok {
 					if u, ok := us[rt.pwUser].(map[string]any); ok {
-						if p, ok := u["password"].(string); ok && p == cr.pw {
-							ownPassword = true
-						}
+						ownPassword = c17PasswordMatches(u["password"], cr.pw)
 					}
 				}
 			}
@@ -289,6 +293,37 @@ func TestVerif_C17_AuthMatrix(t *testing.T) {
 			c17Rec.ClassIf(sufficient, "sufficient")
 		}
 	})
+}
+
+// c17PasswordMatches decides independently whether pw is the password stored in a user entry
+// (plain and pbkdf2 are decided; any other stored form counts as a possible match, which only
+// ever disables the "must be refused" assertion).
+func c17PasswordMatches(stored any, pw string) bool {
+	switch p := stored.(type) {
+	case string:
+		return p == pw
+	case map[string]any:
+		switch p["type"] {
+		case "plain":
+			k, _ := p["key"].(string)
+			return k == pw
+		case "pbkdf2":
+			key, _ := p["key"].(string)
+			salt, _ := p["salt"].(string)
+			it, _ := p["iterations"].(float64)
+			sb, err1 := hex.DecodeString(salt)
+			kb, err2 := hex.DecodeString(key)
+			if err1 != nil || err2 != nil || p["hash"] != "sha-256" || it < 1 {
+				return true
+			}
+			return hex.EncodeToString(pbkdf2.Key([]byte(pw), sb, int(it), len(kb), sha256.New)) == key
+		default:
+			return true
+		}
+	case nil:
+		return false
+	}
+	return true
 }
 
 func trunc(b []byte) string {
